@@ -83,17 +83,37 @@ func isSkipDirValue(v ssa.Value) bool {
 
 // skipDirExits: instructions by which fn decides to return SkipDir: a store of
 // SkipDir into the named result, or a return of it.
+var c10Transparent func(*ssa.Function) bool
+
 func skipDirExits(fn *ssa.Function) []ssa.Instruction {
 	var out []ssa.Instruction
+	// the value is SkipDir itself or what a helper no rule names hands back
+	// (`return fs.pruneDir(path)`: an observer hook, then SkipDir)
+	yieldsSkipDir := func(v ssa.Value) bool {
+		if isSkipDirValue(v) {
+			return true
+		}
+		if rs := eng.ResolveAll(v); len(rs) > 1 || (len(rs) == 1 && rs[0] != v) {
+			for _, r := range rs {
+				if isSkipDirValue(r) {
+					return true
+				}
+			}
+		}
+		return false
+	}
 	eng.Instrs(fn, func(in ssa.Instruction) {
 		switch x := in.(type) {
 		case *ssa.Store:
-			if _, isAlloc := x.Addr.(*ssa.Alloc); isAlloc && isSkipDirValue(x.Val) {
+			if _, isAlloc := x.Addr.(*ssa.Alloc); isAlloc && yieldsSkipDir(x.Val) {
 				out = append(out, in)
 			}
 		case *ssa.Return:
+			if x.Parent() != fn && c10Transparent != nil && c10Transparent(x.Parent()) {
+				return // the return of a helper is not an exit of fn: its call site is
+			}
 			for _, r := range x.Results {
-				if isSkipDirValue(r) {
+				if yieldsSkipDir(r) {
 					out = append(out, in)
 				}
 			}
@@ -109,6 +129,7 @@ func r10_1(c *Ctx, rule string) {
 		return
 	}
 	lit := fw.lit
+	c10Transparent = c.P.Transparent
 	x := c.explorer(lit)
 	// isDir source
 	var isDirPins []string
@@ -523,6 +544,7 @@ func r10_2(c *Ctx, rule string) {
 	for _, pt := range c.prefixTests(fw.lit) {
 		n++
 		ok, why := sepTerminated(c, pt.prefix, false, 0)
+		ok = ok || pt.sepChecked
 		c.R.Check(ok, rule, pt.name+"/prefix-terminated", c.pos(pt.site), "the prefix operand ends in the separator", "the prefix operand of a path-containment test is not separator-terminated ("+why+"): directory 'a' is taken to contain 'ab'")
 		if eng.Dominates(fw.excCall, pt.site) {
 			// exclude block: the pattern side must be terminated too, else
